@@ -39,6 +39,18 @@ Definition is_set_kind (k : skind) : bool :=
 Definition seq_type_kind (k : skind) : bool :=
   match k with STuple => false | _ => true end.
 
+(* parsers whose __contains__ accepts None: OptionalParser, UnionParser with a None member,
+   LiteralParser with a None member, the identity parser of an annotation `None` *)
+Definition accepts_none (t : ty) : bool :=
+  match t with
+  | TNone | TOptional _ => true
+  | TUnion ts => existsb (fun t' => match t' with TNone => true | _ => false end) ts
+  | TLiteral vs => existsb (fun m => match m with VNone => true | _ => false end) vs
+  | _ => false
+  end.
+Definition required_count (ts : list ty) : nat :=
+  List.length (filter (fun t' => negb (accepts_none t')) ts).
+
 (* `sub l' l`: l' is obtained from l by deleting elements (optional TypedDict keys that are absent) *)
 Inductive sublist {A} : list A -> list A -> Prop :=
 | sub_nil : sublist [] []
@@ -89,7 +101,8 @@ Inductive conforms_g (lax : bool) : ty -> pv -> Prop :=
 | LNoneAny v : lax = true -> conforms_g lax TNone v
 | LUnionNone ts : lax = true -> conforms_g lax (TUnion ts) VNone
 | LTupleShort ts1 ts2 o xs :
-    lax = true -> Forall2 (conforms_g lax) ts1 xs -> conforms_g lax (TTuple (ts1 ++ ts2)) (VSeq STuple o xs).
+    lax = true -> (required_count (ts1 ++ ts2) <= List.length ts1)%nat ->
+    Forall2 (conforms_g lax) ts1 xs -> conforms_g lax (TTuple (ts1 ++ ts2)) (VSeq STuple o xs).
 
 Notation conforms := (conforms_g false).
 
@@ -97,28 +110,46 @@ Notation conforms := (conforms_g false).
    Default values conform to their annotation (dataclasses does not check this;
    a non-conforming default is the user's declaration, not the loader's output),
    enum/literal members are scalars, a class has one type per field. *)
-Inductive wf_ty : ty -> Prop :=
-| WAny : wf_ty TAny | WNone : wf_ty TNone | WBool : wf_ty TBool | WInt : wf_ty TInt
-| WFloat : wf_ty TFloat | WStr : wf_ty TStr | WBytes m : wf_ty (TBytes m) | WTok k : wf_ty (TTok k)
-| WEnum e ms : wf_ty (TEnum e ms)
-| WSeq k t : seq_type_kind k = true -> wf_ty t -> wf_ty (TSeq k t)
-| WTuple ts : Forall wf_ty ts -> wf_ty (TTuple ts)
-| WVarTuple t : wf_ty t -> wf_ty (TVarTuple t)
-| WDict k kt vt : wf_ty kt -> wf_ty vt -> wf_ty (TDict k kt vt)
-| WOptional t : wf_ty t -> wf_ty (TOptional t)
-| WUnion ts : Forall wf_ty ts -> wf_ty (TUnion ts)
-| WLiteral vs : wf_ty (TLiteral vs)
+Inductive wf_ty_g (lax : bool) : ty -> Prop :=
+| WAny : wf_ty_g lax TAny | WNone : wf_ty_g lax TNone | WBool : wf_ty_g lax TBool | WInt : wf_ty_g lax TInt
+| WFloat : wf_ty_g lax TFloat | WStr : wf_ty_g lax TStr | WBytes m : wf_ty_g lax (TBytes m) | WTok k : wf_ty_g lax (TTok k)
+| WEnum e ms : wf_ty_g lax (TEnum e ms)
+| WSeq k t : seq_type_kind k = true -> wf_ty_g lax t -> wf_ty_g lax (TSeq k t)
+| WTuple ts : Forall (wf_ty_g lax) ts -> wf_ty_g lax (TTuple ts)
+| WVarTuple t : wf_ty_g lax t -> wf_ty_g lax (TVarTuple t)
+| WDict k kt vt : wf_ty_g lax kt -> wf_ty_g lax vt -> wf_ty_g lax (TDict k kt vt)
+| WOptional t : wf_ty_g lax t -> wf_ty_g lax (TOptional t)
+| WUnion ts : Forall (wf_ty_g lax) ts -> wf_ty_g lax (TUnion ts)
+| WLiteral vs : wf_ty_g lax (TLiteral vs)
 | WNamedTuple n fts :
-    Forall (fun ft => wf_ty (fst ft) /\ forall d, snd ft = Some d -> conforms (fst ft) d) fts ->
+    Forall (fun ft => wf_ty_g lax (fst ft) /\ forall d, snd ft = Some d -> conforms_g lax (fst ft) d) fts ->
     List.length (n_fields n) = List.length fts ->
-    wf_ty (TNamedTuple n fts)
+    wf_ty_g lax (TNamedTuple n fts)
 | WTypedDict tid req opt :
-    Forall (fun kt => wf_ty (snd kt)) req -> Forall (fun kt => wf_ty (snd kt)) opt ->
-    wf_ty (TTypedDict tid req opt)
+    Forall (fun kt => wf_ty_g lax (snd kt)) req -> Forall (fun kt => wf_ty_g lax (snd kt)) opt ->
+    wf_ty_g lax (TTypedDict tid req opt)
 | WData c fts :
-    Forall (fun ft => wf_ty (fst ft) /\ forall d, snd ft = Some d -> conforms (fst ft) d) fts ->
+    Forall (fun ft => wf_ty_g lax (fst ft) /\ forall d, snd ft = Some d -> conforms_g lax (fst ft) d) fts ->
     List.length (c_fields c) = List.length fts ->
-    wf_ty (TData c fts).
+    wf_ty_g lax (TData c fts).
+
+Notation wf_ty := (wf_ty_g false).
+
+(* ---- the region in which the default-engine loader is strict -----------------
+   no field annotated `None` (findings: N3), every Union has a None member (N1),
+   no fixed-arity tuple has a member that may be None (N2). *)
+Definition is_tnone (t : ty) : bool := match t with TNone => true | _ => false end.
+Fixpoint safe_ty (t : ty) : bool :=
+  match t with
+  | TNone => false
+  | TSeq _ t' | TVarTuple t' | TOptional t' => safe_ty t'
+  | TTuple ts => forallb (fun t' => negb (accepts_none t') && safe_ty t') ts
+  | TDict _ kt vt => safe_ty kt && safe_ty vt
+  | TUnion ts => existsb is_tnone ts && forallb (fun t' => is_tnone t' || safe_ty t') ts
+  | TNamedTuple _ fts | TData _ fts => forallb (fun ft => safe_ty (fst ft)) fts
+  | TTypedDict _ req opt => forallb (fun kt => safe_ty (snd kt)) req && forallb (fun kt => safe_ty (snd kt)) opt
+  | _ => true
+  end.
 
 (* ---- well-formed values (what dump needs; independent of annotations) ---- *)
 (* the first occurrence of "+00:00" in an isoformat() text, if any, is its suffix *)
